@@ -1,24 +1,24 @@
 """Generator classes added after the seeded-change rounds (DESIGN.md section 10), one sentence per property.
 Appended to the manifest level text (tools/gen_manifest.py) and to the evidence rule (vlib/main.py)."""
 EXTRA = {
-    'C01': 'bulk addlist/update_extend of 257/300 values and the same argument object passed to two calls',
-    'C02': 'max_size 128/257/300 with a fill over more keys than the capacity; re-entrant on_miss callbacks that store into the cache; identity-checked defaults',
-    'C03': 'an unhashable key (TypeError, nothing changed, lock free); sub-check "bulk": update() of 1000-8193 items with every complete lock release as pre-emption point',
-    'C04': 'stale part files of a crashed attempt; destination names of 250/251/255 characters (part name crossing NAME_MAX)',
-    'C05': 'bodies raising a falsy exception, KeyboardInterrupt, GeneratorExit, SystemExit; the same AtomicSaver object re-used for a second save',
-    'C06': 'BOM / non-characters / bidi controls / U+2028-9 / ends of the BMP in every component; ports of 4300/4301/5000 digits and 5000-character inputs in the totality sub-check',
-    'C07': 'escaped slashes (%2F), colon segments, and URL-looking queries/fragments in the references',
-    'C08': 'containers of 2049-8193 members and thousands of containers between two references to one object',
-    'C09': 'chunk_ranges with sizes/offsets around 2^31, 2^53, 2^63, 2^64, 10^30; split separators that are equal but unhashable or numerically equal',
-    'C10': 'tasks None/0/\'\' and pop/peek defaults None or the head task itself',
-    'C11': '3500/5000-item sets with 380-436 scattered removals (more than 384 dead intervals), several live instances',
-    'C12': 'scripted transient socket errors mid-call followed by a retry; reader limits given per call or via setmaxsize()',
-    'C13': 'stacked wraps; injected absent+present mixes; re-wrapping after the original\'s defaults/annotations/name were reassigned',
-    'C14': 'gzip payloads of 1-16 MiB at and around multiples of 4 MiB with all-zero, patterned and random content',
-    'C15': '\'repeat\' as a run-time built string; starts below the float epsilon',
+    'C01': 'bulk addlist/update_extend of 257/300 values and the same argument object passed to two calls; comparisons with instances of a subclass (both operand orders); containers returned by reads are modified by the harness before the next read',
+    'C02': 'max_size 128/257/300 with a fill over more keys than the capacity; re-entrant on_miss callbacks that store into the cache; identity-checked defaults; loaders (on_miss) that raise KeyError or another exception for every other key',
+    'C03': 'an unhashable key (TypeError, nothing changed, lock free); sub-check "bulk": update() of 1000-8193 items with every complete lock release as pre-emption point; update(positional, **keywords) in one call; sub-check "fresh": the cache is built in a new interpreter before the program imports threading',
+    'C04': 'stale part files of a crashed attempt; destination names of 250/251/255 characters (part name crossing NAME_MAX); bodies that close the file object themselves; destinations with a second hard link',
+    'C05': 'bodies raising a falsy exception, KeyboardInterrupt, GeneratorExit, SystemExit; the same AtomicSaver object re-used for a second save; bodies that close the file object and then raise or return; new content identical to the old content or to the file of the racing writer',
+    'C06': 'BOM / non-characters / bidi controls / U+2028-9 / ends of the BMP in every component; ports of 4300/4301/5000 digits and 5000-character inputs in the totality sub-check; lone surrogates; scheme-less www. links whose host only fails once a scheme is supplied',
+    'C07': 'escaped slashes (%2F), colon segments, and URL-looking queries/fragments in the references; the same base object used again after its path/host was changed; references whose query was built or emptied through query_params',
+    'C08': 'containers of 2049-8193 members and thousands of containers between two references to one object; str/bytes subclass and enum leaves; an earlier remap() call that failed',
+    'C09': 'chunk_ranges with sizes/offsets around 2^31, 2^53, 2^63, 2^64, 10^30; split separators that are equal but unhashable or numerically equal; strip family results compared by identity; unique/redundant with a string key naming a missing attribute over fresh equal objects',
+    'C10': 'tasks None/0/\'\' and pop/peek defaults None or the head task itself; custom priority_key functions that rank None separately; priorities the key rejects (state must be unchanged)',
+    'C11': '3500/5000-item sets with 380-436 scattered removals (more than 384 dead intervals), several live instances; sort(key=...) with tied keys after reverse/sort; slice bounds and steps beyond the machine word',
+    'C12': 'scripted transient socket errors mid-call followed by a retry; reader limits given per call or via setmaxsize(); half of the cases use one delimiter for all recv_until calls',
+    'C13': 'stacked wraps; injected absent+present mixes; re-wrapping after the original\'s defaults/annotations/name were reassigned; generator and async-generator functions; injected and expected in one call',
+    'C14': 'gzip payloads of 1-16 MiB at and around multiples of 4 MiB with all-zero, patterned and random content; parse results modified and the text parsed again; an earlier call with invalid input',
+    'C15': '\'repeat\' as a run-time built string; starts below the float epsilon; the returned list modified and the identical call repeated',
     'C16': 'message lines equal to the interpreter\'s banners; code under linecache-registered pseudo files and code whose source is only reachable through __loader__; call chains deeper than 1000 frames',
-    'C17': 'pool values re-created per use (equal but not identical); identity-hashed values through deepcopy/pickle of FrozenDict',
-    'C18': 'single writes of 64-200 KiB of multi-byte text then rollover(); MultiFileReader members and reads above 1 MiB',
-    'C19': 'one line of 4-140 thousand non-uniform characters at the default block size; unflushed w+ text handles',
-    'C20': 'keys None/0/\'\'/() and update() with MappingProxyType, ChainMap, UserDict, OrderedDict',
+    'C17': 'pool values re-created per use (equal but not identical); identity-hashed values through deepcopy/pickle of FrozenDict; equality re-checked after hash() was attempted on both sides',
+    'C18': 'single writes of 64-200 KiB of multi-byte text then rollover(); MultiFileReader members and reads above 1 MiB; writelines from a list, from a generator that watches tell(), from a generator that fails half-way; NamedTemporaryFile members',
+    'C19': 'one line of 4-140 thousand non-uniform characters at the default block size; unflushed w+ text handles; JSON lines nested beyond the recursion limit of the decoder; decoded objects modified and the file read again',
+    'C20': 'keys None/0/\'\'/() and update() with MappingProxyType, ChainMap, UserDict, OrderedDict; update() from a generator that itself adds to the counter; most_common() results modified before the next query',
 }
